@@ -38,7 +38,19 @@
 (* the dumped graph -- `Cancel(1,"exc",2)`: cancel(id 1) returned true and *)
 (* completed the sleep in slot 2 with await_canceled_exception;            *)
 (* `Cancel(1,"exc",0)`: it returned false -- and the replayer compares it  *)
-(* with what the real call returned / did.                                 *)
+(* with what the real call returned / did.  Consequences: a call without   *)
+(* effect is a SELF LOOP of the state graph (the path cover of the check,  *)
+(* tools/fastcover.py, walks self loops), and after ~scheduler a new one   *)
+(* is constructed (Construct / Restart), so a replayed scenario spans      *)
+(* several lifetimes and the graph has no dead end.                        *)
+(*                                                                         *)
+(* Not modelled here (separate model on top of Parts 1-2): worker thread / *)
+(* thread pool, i.e. `_mx` as a lock with a holder, `_cond` with waiters,  *)
+(* the stop callback's notify.  In the modes below exactly one thread      *)
+(* exists, every call runs to completion, so a region under `_mx` is one   *)
+(* atomic step; that the thread never blocks on `_mx` or `_cond` (no self  *)
+(* dead-lock, no wait without deadline) is checked on the real code by the *)
+(* replayer's interposed pthread functions.                                *)
 (***************************************************************************)
 EXTENDS Integers, Sequences, FiniteSets, TLC
 
